@@ -6,7 +6,7 @@ import os
 from .. import core, cfgs
 
 S = core.tla_set
-SPECIALS = [10000, 10001, 10002, 10003]   # t = 0 (V = O) at the responder / initiator; P = [x~]R (the peer adds equal points) at the responder / initiator
+SPECIALS = [10000, 10001, 10002, 10003, 10004]   # t = 0 (V = O) at the responder / initiator; P = [x~]R (the peer adds equal points) at the responder / initiator; klen = 300
 INVS = ("TypeOK", "Agreement", "BadPointRejected", "BadConfirmRejected", "FailClosed", "CrossImpl", "DhAgree")
 
 
@@ -25,8 +25,8 @@ def run(ctx):
         groups = [("b%d" % b, list(range(49 * b, 49 * b + 49)) + (SPECIALS if b == 0 else []), 1, 1, 2) for b in range(7)]
         groups.append(("adv2", [0, 8, 16, 24, 32, 40, 48], 1, 2, 2))
         nshard_workers = 4
-        nrec, rec_shards = 360, 12
-        nrec2, rec2_shards = 120, 8
+        nrec, rec_shards = 240, 12
+        nrec2, rec2_shards = 80, 8
     jobs, outs = [], []
     for name, ids, advmod, maxadv, nsh in groups:
         for i in range(nsh):
